@@ -360,6 +360,7 @@ type AttemptPlan struct {
 	MapperFault  string // "" | err:db.t | mismatch:db.t
 	CancelAtTx   int    // cancel the context from inside the handler of transaction index k (before it returns); -1
 	CancelAtPkt  int    // cancel when packet index i has been sent; -1
+	StallAfter   int    // the master falls silent (connection open) after packet index i; -1: it sends everything
 	HandlerBlock int    // tx index whose handler blocks until released by the stop cause; -1
 	HandlerBlockMs int  // if > 0 the blocked handler resumes by itself after this many milliseconds
 	ReleaseDelayMs int  // the blocked handler keeps running this long AFTER the stop cause (cancel) before it returns
@@ -377,12 +378,12 @@ type AttemptPlan struct {
 }
 
 func defaultAttempt() AttemptPlan {
-	return AttemptPlan{Pacing: "burst", End: "eof", HandlerErrAt: -1, CancelAtTx: -1, CancelAtPkt: -1, HandlerBlock: -1}
+	return AttemptPlan{Pacing: "burst", End: "eof", HandlerErrAt: -1, CancelAtTx: -1, CancelAtPkt: -1, HandlerBlock: -1, StallAfter: -1}
 }
 
 func (a AttemptPlan) J() M {
 	m := M{"pacing": a.Pacing, "end": a.End, "connfault": orNone(a.ConnFault), "handlerErrAt": a.HandlerErrAt,
-		"mapperFault": orNone(a.MapperFault), "handlerErrKind": orNone(a.HandlerErrKind), "cancelAtTx": a.CancelAtTx, "cancelAtPkt": a.CancelAtPkt,
+		"mapperFault": orNone(a.MapperFault), "handlerErrKind": orNone(a.HandlerErrKind), "cancelAtTx": a.CancelAtTx, "cancelAtPkt": a.CancelAtPkt, "stallAfter": a.StallAfter,
 		"handlerBlock": a.HandlerBlock, "releaseDelayMs": a.ReleaseDelayMs, "scribble": a.Scribble, "dead": a.Dead, "cancelAfterReturn": a.CancelAfterReturn,
 		"logDelayMs": a.LogDelayMs, "skipError": a.SkipError, "hookTrace": a.HookTrace, "hookFuzz": a.HookFuzz != 0, "scripted": a.Script != nil, "leakFirst": a.LeakFirst, "mapperCancels": a.MapperCancels, "deadline": a.Deadline, "script": scriptJ(a.Script)}
 	if a.Fault != nil {
@@ -652,6 +653,9 @@ func (rs *runState) runAttempt(att int, a AttemptPlan, dsnOverride string) {
 			pk = append(pk, e.Bytes)
 		}
 		pk = injectPackets(sc.Log, pk, a.Inject, c.Off)
+		if a.StallAfter >= 0 && a.StallAfter+1 < len(pk) {
+			pk = pk[:a.StallAfter+1] // the master stalls here: nothing more arrives, the connection stays open
+		}
 		smu.Lock()
 		nServed = len(pk)
 		smu.Unlock()
